@@ -299,6 +299,31 @@ def _no_reinit(ctx) -> None:
                        message=f"{new.qualname} returns an already initialised {target_cls}; Python then calls "
                                f"{target_cls}.__init__ on it again, which {why} - the second run swaps the storage and "
                                f"registers it without unregistering the first (stale registry entry for a live object)")
+    # the mirror image: a constructor call through a CLASS VARIABLE - cls(...) in a classmethod, type(self)(...), self.__class__(...).
+    # Vector.__new__ picks the class from the data / dtype; called as _Int(...) with float data it returns a _Float, which is not an
+    # instance of _Int, so Python runs no __init__ at all: a hollow object (no storage, unregistered) is handed out
+    hollow = []
+    for q, fn in sorted(prog.functions.items()):
+        if isinstance(fn.node, ast.Lambda) or fn.cls not in hierarchy:
+            continue
+        for c_ in prog.calls_in(fn):
+            tgt = c_.func
+            via = None
+            if isinstance(tgt, ast.Name) and tgt.id == "cls" and "classmethod" in fn.decorators:
+                via = "cls(...)"
+            elif isinstance(tgt, ast.Call) and isinstance(tgt.func, ast.Name) and tgt.func.id == "type" and len(tgt.args) == 1 \
+                    and short(tgt.args[0]) == "self":
+                via = "type(self)(...)"
+            elif isinstance(tgt, ast.Attribute) and tgt.attr == "__class__" and short(tgt.value) == "self":
+                via = "self.__class__(...)"
+            if via:
+                hollow.append((fn, c_, via))
+    ctx.ob("b.no-reinit", prog.func("vector.Vector.__new__"), "no-class-variable-construction", not hollow,
+           "no vector is constructed through cls(...) / type(self)(...): the class is picked by Vector.__new__ from the data",
+           hollow[0][1] if hollow else prog.func("vector.Vector.__new__").node,
+           message="; ".join(f"{fn.qualname} line {c_.lineno}: `{short(c_, 50)}` constructs through {via}: on a typed vector the class "
+                             f"variable is _Int / _String / ..., Vector.__new__ returns a sibling class for data of another kind and Python "
+                             f"then skips __init__ - Vector([1, 2]).new(0.5, 2) is a hollow object whose repr raises" for fn, c_, via in hollow[:2]))
     if n == 0:
         # nothing returns a constructed object any more: vacuous, but keep the rule honest
         ctx.ob("b.no-reinit", prog.func("vector.Vector.__new__"), "returns:none", True,
@@ -613,6 +638,8 @@ def _fresh_storage(ctx) -> None:
 
 _V = "vector"
 MUTANTS = [
+    dict(id="new-constructs-through-cls", module="vector", old="			return Vector([default_element for _ in range(length)], dtype=dtype)",
+         new="			return cls([default_element for _ in range(length)], dtype=dtype)", rules=["b.no-reinit"], desc="reverts fix af39c72"),
     dict(id="lshift-over-operand-tuple", module=_V, old="			return Vector(list(self._underlying + other._underlying))",
          new="			return Vector(self._underlying + other._underlying)", rules=["f.fresh-storage"],
          desc="the defect repaired by fix c37ac98: v << [] shares v's storage"),
